@@ -46,6 +46,7 @@ func initArrayTuple() {
 	RegisterNativeClass("Std::ArrayTuple", "value.ArrayTupleClass")
 
 	ArrayTupleIteratorClass = NewClass()
+	ArrayTupleIteratorClass.IncludeMixin(ResettableIteratorBaseMixin)
 	ArrayTupleClass.AddConstantString("Iterator", Ref(ArrayTupleIteratorClass))
 	RegisterNativeClass("Std::ArrayTuple::Iterator", "value.ArrayTupleIteratorClass")
 }
